@@ -243,7 +243,10 @@ func c09Distinct(a *ChildArgs) {
 		"SELECT * FROM (SELECT a FROM t) d JOIN u ON d.a = u.a", "SELECT * FROM t JOIN (SELECT a FROM u) d ON d.a = t.a", "SELECT * FROM (SELECT a FROM t) d",
 		"SELECT * FROM (SELECT a FROM t) d LEFT JOIN (SELECT b FROM u) e ON d.a = e.b JOIN v ON v.c = d.a", "SELECT a FROM t WHERE a IN (SELECT b FROM u) AND EXISTS (SELECT 1 FROM v)",
 		"WITH c AS (SELECT 1) SELECT * FROM c UNION SELECT 2", "INSERT INTO t (a) SELECT b FROM (SELECT b FROM u) x", "SELECT CASE WHEN a THEN (SELECT 1) END, f(a) OVER (PARTITION BY b) FROM t",
-		"UPDATE t SET a = (SELECT MAX(b) FROM u) WHERE c IS NOT NULL", "DELETE FROM t WHERE NOT EXISTS (SELECT 1 FROM u WHERE u.a = t.a)", "SELECT a FROM t WHERE b BETWEEN 1 AND 2 OR c LIKE 'x%'"}
+		"UPDATE t SET a = (SELECT MAX(b) FROM u) WHERE c IS NOT NULL", "DELETE FROM t WHERE NOT EXISTS (SELECT 1 FROM u WHERE u.a = t.a)", "SELECT a FROM t WHERE b BETWEEN 1 AND 2 OR c LIKE 'x%'",
+		// subscripts, slices, tuples and array constructors (the node kinds the parser itself draws from the pools) inside each other
+		"SELECT a[b[1]:c[2]] FROM t", "SELECT m[1][2], n[x[1]:y[2]][3] FROM t", "SELECT a[ARRAY[1, 2][1]:(3)] FROM t", "SELECT ARRAY[a[1:2], b[3]], (c[1], d[2:3]) FROM t WHERE (e, f) IN ((1, 2), (g[1], h[2:]))",
+		"SELECT a[:b[1]], c[d[1]:] FROM t"}
 	g := gen.New(rand.New(rand.NewSource(a.Seed*7919+11)), avoid)
 	n := 150
 	if !a.Quick() {
@@ -497,7 +500,7 @@ func c09Ownership(a *ChildArgs, workers int) {
 			}
 			for s := 0; s < steps; s++ {
 				op := []string{"parse-hold", "parse-hold", "tokenize-hold", "comments-hold", "parse-release", "format", "extract-hold", "scan-hold", "release-held-tree", "pool-churn", "parse-with-comments-format",
-					"batch-hold", "rejected-calls", "release-held-tree", "parser-tokens-hold", "transform-two"}[r.Intn(16)]
+					"batch-hold", "rejected-calls", "release-held-tree", "parser-tokens-hold", "transform-two", "transform-where-held", "text-scan-custom-rule"}[r.Intn(18)]
 				sql := gen.Plain(g.Statement(2).Toks)
 				switch op {
 				case "parse-hold":
@@ -555,6 +558,54 @@ func c09Ownership(a *ChildArgs, workers int) {
 							}
 							ast.ReleaseAST(t1)
 						}
+					}
+				case "transform-where-held":
+					// the caller takes the WHERE condition off a statement (to wrap it into a new one, or to reuse it on
+					// another statement): the detached condition is still the caller's
+					if t, err := gosqlx.Parse("SELECT id FROM a WHERE x = 1 AND y IN (2, 3)"); err == nil {
+						if sel, ok := t.Statements[0].(*ast.SelectStatement); ok && sel.Where != nil {
+							old := sel.Where
+							before := dump.Dump(old)
+							var rule transform.Rule
+							wrapped := r.Intn(2) == 0
+							if wrapped {
+								rule = transform.ReplaceWhere(&ast.BinaryExpression{Left: &ast.BinaryExpression{Left: &ast.Identifier{Name: "tenant_id"}, Operator: "=", Right: &ast.LiteralValue{Value: "7", Type: "int"}}, Operator: "AND", Right: old})
+							} else {
+								rule = transform.RemoveWhere()
+							}
+							if err := transform.Apply(sel, rule); err == nil {
+								// other parses draw from the pools in between
+								for k := 0; k < 3; k++ {
+									if t2, err := gosqlx.Parse("SELECT p FROM q WHERE r = 5 AND s = 6 OR u = 7"); err == nil {
+										trees = append(trees, t2)
+										tt := t2
+										holds = append(holds, held{Ptr: tt, What: "tree", Snap: dump.Dump(tt), Get: func() string { return dump.Dump(tt) }})
+									}
+								}
+								if after := dump.Dump(old); after != before {
+									a.Rec.Viol(fmt.Sprintf("C09/own/detached-where-changed/wrapped=%v", wrapped), "values handed to the caller are never modified by later library activity",
+										"the WHERE condition the caller took off the statement before replacing / removing it was changed by the rule or by later parses", map[string]interface{}{"history": hist, "before": trunc(before, 300), "after": trunc(after, 300)})
+								}
+							}
+						}
+						// the tree is dropped, not released: its nodes are partly the caller's
+					}
+				case "text-scan-custom-rule":
+					// the text scanner with a caller-supplied rule that keeps the slice it returns (the Rule interface does
+					// not ask for a fresh one): a result already handed out is the caller's, whatever the rule reuses
+					rule := &c09RetainingRule{}
+					sc := textsec.NewScannerWithRules(rule)
+					first := sc.Scan("SELECT a FROM t WHERE b = 1; EXEC xp_cmdshell 'dir'")
+					snap := dump.Dump(first)
+					second := sc.Scan("SELECT 1;\n\nSELECT c FROM u WHERE d = 2; EXEC xp_dirtree 'c:'")
+					_ = second
+					if after := dump.Dump(first); after != snap {
+						a.Rec.Viol("C09/own/text-scan-result-changed", "scan results handed to the caller are never modified by later library activity",
+							"the findings returned by one Scan changed when the same scanner scanned another text", map[string]interface{}{"history": hist, "before": trunc(snap, 300), "after": trunc(after, 300)})
+					}
+					if got := dump.Dump(rule.buf[:rule.n]); got != rule.snap {
+						a.Rec.Viol("C09/own/text-scan-rule-storage-written", "values the caller lends to the library are not written into",
+							"Scan wrote into the slice the caller's rule returned (and keeps)", map[string]interface{}{"history": hist, "rule_returned": trunc(rule.snap, 300), "rule_holds_now": trunc(got, 300)})
 					}
 				case "parser-tokens-hold":
 					// the caller's parser-token stream (here of a two-statement script), handed to the token-level entry
@@ -875,4 +926,32 @@ func c09CancelDistinct(a *ChildArgs) {
 			}
 		}
 	}
+}
+
+// c09RetainingRule is a caller-written rule for the text scanner that refills one buffer on every call.
+type c09RetainingRule struct {
+	buf  [4]textsec.Finding
+	n    int
+	snap string
+}
+
+func (r *c09RetainingRule) ID() string          { return "CUSTOM001" }
+func (r *c09RetainingRule) Description() string { return "reports xp_ procedures, reusing its result buffer" }
+func (r *c09RetainingRule) Check(sql string) []textsec.Finding {
+	r.n = 0
+	for off := 0; ; {
+		i := strings.Index(sql[off:], "xp_")
+		if i < 0 || r.n == len(r.buf) {
+			break
+		}
+		end := off + i
+		for end < len(sql) && sql[end] != ' ' {
+			end++
+		}
+		r.buf[r.n] = textsec.Finding{RuleID: r.ID(), Severity: textsec.SeverityCritical, Message: "extended procedure", Match: sql[off+i : end], Position: off + i}
+		r.n++
+		off = end
+	}
+	r.snap = dump.Dump(r.buf[:r.n])
+	return r.buf[:r.n]
 }
